@@ -77,10 +77,10 @@ PROPS = {
         not_decided="write_trailer text, /ID computation (md5), that the chain parses in a reader, incremental_form_fill / incremental_text_notes field-tree resolution; termination of write_object/write_dictionary (recursion through an opaque dictionary) is not proved",
     ),
     "C18": dict(
-        verus=["flatten"],
+        verus=["flatten", "inherit"],
         standins=["pagetree"],
-        level_text="flatten_page_tree terminates, returns at most MAX_PAGES references and no reference twice, for ANY behaviour of the reader (cyclic, shared, lying trees); document order and attribute inheritance are not decided",
-        not_decided="document order equals the DFS order of the real tree, inheritance of Resources/MediaBox/CropBox/Rotate, page_count fallbacks",
+        level_text="flatten_page_tree terminates, returns at most MAX_PAGES references and no reference twice, for ANY behaviour of the reader (cyclic, shared, lying trees); collect_inherited_attributes returns exactly the inheritable attributes the page lacks, each from the NEAREST ancestor on the /Parent chain (any object graph, cyclic chains included); document order is covered only by the bounded stand-in pagetree",
+        not_decided="document order equals the DFS order of the real tree (stand-in only), find_page_in_tree's index arithmetic, page_count fallbacks",
     ),
     "C05": dict(
         verus=["rc4", "objkey"],
